@@ -419,10 +419,19 @@ func newDNS64(c config.DNS64Config) *dns64.DNS64 {
 }
 
 // serve runs one client query through [dns64, scripted downstream].
+// serveReplayPass makes the next serve() the worker's replay of a query an inline-only pass declined
+// (Chain.SetReplay): every decision of the handler has to be the same on that pass.
 func serve(ctx context.Context, d *dns64.DNS64, client string, req *dns.Msg, sc *script) *dns.Msg {
+	return serveOn(ctx, d, client, req, sc, false)
+}
+
+func serveOn(ctx context.Context, d *dns64.DNS64, client string, req *dns.Msg, sc *script, replay bool) *dns.Msg {
 	ch := middleware.NewChain([]middleware.Handler{d, scriptedDownstream{}})
 	w := mock.NewWriter("udp", client)
 	ch.Reset(w, req)
+	if replay {
+		ch.SetReplay()
+	}
 	ch.Next(context.WithValue(ctx, scriptKey{}, sc))
 	return w.Msg()
 }
